@@ -86,6 +86,10 @@ def _exec(sim, op):
             pid = sim.sel(str(props.get("name", "")), i, live_only=False)
             if pid is not None:
                 props["pid"] = pid
+        if "pidany" in props:
+            i = props.pop("pidany")
+            allp = sorted(sim.kernel.procs) + [4242]
+            props["pid"] = allp[i % len(allp)]
         if "childsel" in props:
             i = props.pop("childsel")
             kids = sorted(c.pid for c in sim.kernel.procs.values()
@@ -289,6 +293,8 @@ def gen_request(rng, w, p, names):
         props = {"name": name, "signum": rng.choice([SIGHUP, SIGUSR1, "usr2", SIGTERM, SIGKILL, "int"])}
         if rng.random() < 0.5:
             props["pidsel"] = rng.randint(0, 3)
+        elif rng.random() < p.get("anypid", 0.0):
+            props["pidany"] = rng.randint(0, 9)      # some other watcher's worker, a child, a dead or unrelated pid
         if rng.random() < 0.3:
             props["children"] = True
         if rng.random() < 0.3:
